@@ -8,7 +8,7 @@ def cfg : TopSearch.Graph.Cfg :=
     iters := 530, useArgmin := true,
     roughSmall := [0, 1], roughCmp := .lt }
 def bcfg : TopSearch.Batch.BCfg :=
-  { monoCmp := .lt, sentCmp := .gt, sentThr := 1000000000,
+  { monoCmp := .le, sentCmp := .gt, sentThr := 1000000000,
     sentinel := 10000000000, useMin := true, barrierCmp := .lt,
     noTsMax := 100000, barrierSkipsCurrent := true,
     barrierSkipsExcluded := true,
